@@ -1,14 +1,23 @@
 // native replay for C31: the real Timer<Mon> event loop on a scripted clock (this program defines
 // std::chrono::system_clock::now(); hypersleep really sleeps its few milliseconds).
 //   <mode> <op> <nev> <steps> <clear_at> <ms0 ms1 ms2> <rep0 rep1 rep2> <res[0..steps]> <readings...>
+//   conc        deterministic two-thread demonstration of the critical-section premise: one repeating event (10 ms) whose
+//               first callback sleeps 60 ms; a second thread calls clear() 20 ms after that callback started; the loop runs
+//               on for 300 ms of real time.  Counts callbacks that START after clear() returned (real code: 0, because
+//               clear() waits for the lock the loop holds across callback and re-queue).
 // The same monitor as the harness: a callback may run only when pending, at a reading >= its due time, and only if no
 // other pending event is due earlier.  exit 1 when the monitor is violated, 2 when the scenario cannot be replayed
 // (clear() from another thread at a chosen lock acquisition is not reproducible without a scheduler).
 #include <fix8/f8includes.hpp>
 #include <cstdio>
 #include <cstdlib>
+#include <cstring>
 #include <vector>
+#include <thread>
+#include <atomic>
+#include <time.h>
 using namespace FIX8;
+static bool real_clock;
 static std::vector<long long> reads; static size_t nread; static long long g_now; static int steps, nticks;
 struct Mon;
 static Timer<Mon> *the_timer;
@@ -16,6 +25,7 @@ static bool in_run;
 namespace std { namespace chrono { inline namespace _V2 {
 system_clock::time_point system_clock::now() noexcept
 {
+  if (real_clock) { timespec ts; clock_gettime(CLOCK_REALTIME, &ts); return time_point(duration(ts.tv_sec * 1000000000LL + ts.tv_nsec)); }
   if (nread < reads.size()) g_now = reads[nread]; ++nread;
   if (in_run && ++nticks >= steps && the_timer) the_timer->stop(), the_timer->cancellation_token().request_stop();
   return time_point(duration(g_now));
@@ -35,9 +45,30 @@ static bool cb(int id)
   if (r && rep[id]) { pending[id] = true; due[id] = g_now + ms[id] * 1000000LL; } else pending[id] = false;
   return r;
 }
-struct Mon { bool cb0() { return cb(0); } bool cb1() { return cb(1); } bool cb2() { return cb(2); } };
+static std::atomic<int> c_started(0), c_after_clear(0); static std::atomic<bool> c_clear_done(false), c_mode(false);
+static bool conc_cb()
+{
+  if (c_clear_done) ++c_after_clear;
+  if (++c_started == 1) hypersleep<h_milliseconds>(60);
+  return true;
+}
+struct Mon { bool cb0() { return c_mode ? conc_cb() : cb(0); } bool cb1() { return cb(1); } bool cb2() { return cb(2); } };
+static int conc()
+{
+  real_clock = true; c_mode = true;
+  Mon mon; Timer<Mon> timer(mon, 1);
+  timer.schedule(TimerEvent<Mon>(&Mon::cb0, true), 10);
+  std::thread loop([&timer]() { timer(); });
+  std::thread clearer([&timer]() { while (!c_started) hypersleep<h_milliseconds>(1); hypersleep<h_milliseconds>(20); timer.clear(); c_clear_done = true; });
+  hypersleep<h_milliseconds>(300);
+  timer.cancellation_token().request_stop(); loop.join(); clearer.join();
+  printf("C31 conc: callbacks started=%d, started after clear() returned=%d -> %s\n", int(c_started), int(c_after_clear), c_after_clear ? "VIOLATED" : "ok");
+  timer.clear();
+  return c_after_clear ? 1 : 0;
+}
 int main(int argc, char **argv)
 {
+  if (argc > 1 && !strcmp(argv[1], "conc")) return conc();
   if (argc < 12) return 2;
   const int mode(atoi(argv[1])), op(atoi(argv[2])); nev = atoi(argv[3]); steps = atoi(argv[4]); const int clear_at(atoi(argv[5]));
   for (int i = 0; i < 3; ++i) { ms[i] = atoi(argv[6 + i]); rep[i] = atoi(argv[9 + i]) != 0; }
